@@ -231,7 +231,10 @@ def run_family(ctx, prop, fns, gens, mc_cfgs, extra_mc=()):
 def run(ctx):
     return run_family(ctx, PROP, FNS, GEN, MC_QUICK if ctx.quick else MC_THOROUGH,
                       extra_mc=[("MC_PermLemma.tla", "MC_PermLemma.cfg"),
-                                ("MC_Randomizer.tla", "MC_Randomizer_5.cfg")])
+                                ("MC_Randomizer.tla", "MC_Randomizer_5.cfg"),
+                                # the Apalache-typed copies of the swap operators (unbounded induction,
+                                # spec/ApaSwap.tla, harness/apaswap.sh) equal Rewire.tla's: 120 matrices x 5^4
+                                ("MC_ApaSwapBind.tla", "MC_ApaSwapBind.cfg")])
 
 
 def replay(ctx, rp):
